@@ -376,6 +376,8 @@ func runC08(r *vk.Run) {
 	r.Phase("errorstreams", r.N(150, 20000), func(c *vk.Case) {
 		rng := c.Rng
 		broken := []string{`{"a":1`, `{"a" 1}`, `{"a":1,}`, `GET /healthz 200`, `POST /login 302`, `[1,2]`, `{"a":{"b":`, `{a:1}`, `{"k":oops}`, `a="unterminated`, `{"_entry":"x","0k":"v"}`,
+			// logfmt keys that are not identifiers next to their look-alikes: two different label sets
+			`user.id=7 op=x`, `user_id=7 op=x`, `user.id=7 user_id=8 op=x`, `9lives=1 op=x`, `_9lives=1 op=x`,
 			// broken in the middle of a nested object / array, after members that were fine
 			`{"n":2,"a":{"b":"v"},"req":{"dur":`, `{"a":{"b":"v","c":[1,{"d":`, `{"meta":{"level":"warn"},"a":{"b":`}
 		n := rng.Range(3, 10)
